@@ -32,11 +32,11 @@ package snap
 //@   loop tmID as i
 //@     invariant 0 - 1 <= i && i < len(tmIDs) && !isNil(tmIDsByLevels)
 //@     invariant forall(j, 0, i + 1, hasKey(tmIDsByLevels, tmLevel(tms, tmIDs[j])) && tmIDsByLevels[tmLevel(tms, tmIDs[j])] == tmIDs[j])
-//@     invariant forall(l Int, hasKey(tmIDsByLevels, l) ==> l == tmLevel(tms, tmIDsByLevels[l]) && inSlice(tmIDs, tmIDsByLevels[l]), trigger(tmIDsByLevels[l]))
+//@     invariant forall(l Int, hasKey(tmIDsByLevels, l) ==> l == tmLevel(tms, tmIDsByLevels[l]) && inSlice(tmIDs, tmIDsByLevels[l]), trigger(hasKey(tmIDsByLevels, l)))
 //@     loopuse i + 1 < len(tmIDs) ==> idxOf_def(tmIDs, tmIDs[i + 1], i + 1)
 //@     decreases len(tmIDs) - i
 //@   ensures[C03,C08] forall(j, 0, len(tmIDs), hasKey(result, tmLevel(tms, tmIDs[j])) && result[tmLevel(tms, tmIDs[j])] == tmIDs[j])
-//@   ensures[C03,C08] forall(l Int, hasKey(result, l) ==> l == tmLevel(tms, result[l]) && inSlice(tmIDs, result[l]), trigger(result[l]))
+//@   ensures[C03,C08] forall(l Int, hasKey(result, l) ==> l == tmLevel(tms, result[l]) && inSlice(tmIDs, result[l]), trigger(hasKey(result, l)))
 
 // ---- ring assembly: not verified (data-dependent heuristics, see DESIGN.md); trusted to return without effects on
 // their arguments' lengths. Whether they can panic is NOT assumed: callers treat a panic as possible (maypanic), and
@@ -66,9 +66,8 @@ package snap
 // or a segment for which no centre is found); nothing else in it can.
 //@ macro keysIn(m, levels) = forall(k Int, hasKey(m, k) ==> inSlice(levels, k), trigger(hasKey(m, k)))
 //@ func addPointsAndSnap
-//@   mode real
-//@   prelude geom arith lists
-//@   requires indexInv(ix) && !isNil(ix.hitOnce) && !isNil(ix.hitMultiple)
+//@   prelude arith lists
+//@   requires !isNil(ix.hitOnce) && !isNil(ix.hitMultiple) && forall(a, 0, len(polygon), len(polygon[a]) > 0 ==> indexInv(ix))
 //@   requires forall(a, 0, len(polygon), forall(b, 0, len(polygon[a]), segCoordOK(polygon[a][b])))
 //@   maypanic
 //@   modifies ix.hitOnce
@@ -77,14 +76,14 @@ package snap
 //@   ensures[C05] forall(k Int, hasKey(result, k) ==> len(result[k]) > 0, trigger(hasKey(result, k)))
 //@   loop ring as r
 //@     invariant 0 - 1 <= r && r < len(polygon)
-//@     invariant indexInv(ix) && !isNil(ix.hitOnce) && !isNil(ix.hitMultiple)
+//@     invariant !isNil(ix.hitOnce) && !isNil(ix.hitMultiple) && forall(a, 0, len(polygon), len(polygon[a]) > 0 ==> indexInv(ix))
 //@     invariant !isNil(levelMap) && keysIn(levelMap, levels) && !isNil(newOuters) && !isNil(newInners) && !isNil(newPointsAndLines) && keysIn(newPointsAndLines, levels)
 //@     decreases len(polygon) - r
 //@   loop level as it1
 //@     invariant !isNil(newRing)
 //@   loop vertex as v
 //@     invariant 0 - 1 <= v && v < len(ring) && ringLen == len(ring)
-//@     invariant indexInv(ix) && !isNil(ix.hitOnce) && !isNil(ix.hitMultiple) && !isNil(newRing) && !isNil(levelMap)
+//@     invariant (len(ring) > 0 ==> indexInv(ix)) && !isNil(ix.hitOnce) && !isNil(ix.hitMultiple) && !isNil(newRing) && !isNil(levelMap)
 //@     decreases len(ring) - v
 //@   loop level#2 as it2
 //@     invariant !isNil(newRing)
@@ -101,3 +100,35 @@ package snap
 //@     invariant forall(k Int, hasKey(newPolygons, k) ==> len(newPolygons[k]) > 0, trigger(hasKey(newPolygons, k)))
 //@     invariant pl >= 0 ==> hasKey(newPolygons, level)
 //@     decreases len(pointsAndLines) - pl
+
+// SnapPolygon: C09 (outside the grid: panic, or an empty result when that is to be ignored), C08 / C03 (the result is
+// keyed by requested tile matrix ids only, each key's list being what was computed for that id's level), C05 (no id
+// is mapped to an empty list). Preconditions - they are part of each of these claims: a non-empty list of ids in
+// [0, 1000]; a tile matrix set that can be indexed for every requested id (macro indexable: matrix 0 present with
+// decoded origin and no variable widths, tile width in [1, 2^40], level <= 32 [known finding F6 for deeper levels],
+// bounding box inside +-5e7 units); known axis order; ordinates of the polygon within +-2e8; a round grid (the
+// extent is a whole number of deepest pixels: needed by the descent contracts).
+//@ func SnapPolygon
+//@   prelude arith tmsaxis lists morton
+//@   requires len(tmIDs) > 0 && forall(i, 0, len(tmIDs), 0 <= tmIDs[i] && tmIDs[i] <= 1000 && indexable(tileMatrixSet, tmIDs[i]))
+//@   requires !xyErr(tileMatrixSet) && tmsRound(tileMatrixSet, sliceMax(tmIDs))
+//@   requires forall(a, 0, len(polygon), forall(b, 0, len(polygon[a]), segCoordOK(polygon[a][b])))
+//@   maypanic
+//@   loop level as it1
+//@     invariant forall(i, 0, len(levels), hasKey(tmIDsByLevels, levels[i]))
+//@   loop level#2 as it2 isolated
+//@     invariant !isNil(newPolygonsPerTileMatrixID) && keysIn(newPolygonsPerLevel, levels)
+//@     invariant forall(i, 0, len(levels), hasKey(tmIDsByLevels, levels[i]))
+//@     invariant forall(l Int, hasKey(tmIDsByLevels, l) ==> l == tmLevel(tileMatrixSet, tmIDsByLevels[l]) && inSlice(tmIDs, tmIDsByLevels[l]), trigger(hasKey(tmIDsByLevels, l)))
+//@     invariant forall(k Int, hasKey(newPolygonsPerLevel, k) ==> len(newPolygonsPerLevel[k]) > 0, trigger(hasKey(newPolygonsPerLevel, k)))
+//@     invariant forall(id Int, hasKey(newPolygonsPerTileMatrixID, id) ==> inSlice(tmIDs, id) && len(newPolygonsPerTileMatrixID[id]) > 0, trigger(hasKey(newPolygonsPerTileMatrixID, id)))
+//@     invariant forall(id Int, hasKey(newPolygonsPerTileMatrixID, id) ==> hasKey(newPolygonsPerLevel, tmLevel(tileMatrixSet, id))
+//@                 && newPolygonsPerTileMatrixID[id] == newPolygonsPerLevel[tmLevel(tileMatrixSet, id)], trigger(hasKey(newPolygonsPerTileMatrixID, id)))
+//@     invariant forall(l Int, seen_it2[l] ==> hasKey(newPolygonsPerTileMatrixID, tmIDsByLevels[l]), trigger(seen_it2[l]))
+//@   postlet ppl = newPolygonsPerLevel
+//@   postlet byLevel = tmIDsByLevels
+//@   ensures[C03,C08] isNil(ppl) || forall(id Int, hasKey(result, id) ==> hasKey(ppl, tmLevel(tileMatrixSet, id)) && result[id] == ppl[tmLevel(tileMatrixSet, id)], trigger(hasKey(result, id)))
+//@   ensures[C03,C08] isNil(ppl) || forall(l Int, hasKey(ppl, l) ==> hasKey(result, byLevel[l]) && l == tmLevel(tileMatrixSet, byLevel[l]), trigger(hasKey(ppl, l)))
+//@   ensures[C08,C03] forall(id Int, hasKey(result, id) ==> inSlice(tmIDs, id), trigger(hasKey(result, id)))
+//@   ensures[C05] forall(id Int, hasKey(result, id) ==> len(result[id]) > 0, trigger(hasKey(result, id)))
+//@   ensures[C09] !allInGridT(tileMatrixSet, sliceMax(tmIDs), polygon) ==> len(result) == 0 && config.IgnoreOutsideGrid
